@@ -59,14 +59,15 @@ def worker(version, args):
                 del scn2
                 R.case(key=key, nontrivial=len(H.ops) - n0 >= 3, tags=("save",),
                        sample={"version": version, "ops": H.ops[-5:], "triggers": len(d1["triggers"]), "units": sum(len(x) for x in d1["units"])} if len(R.samples) < 2 else None)
-                df = histories.diff_dumps(d1, d2)
+                hooked = getattr(H, "_hooked", False)      # an on-write hook edits the managers during the save: it is part of it
+                df = histories.diff_dumps(d_after if hooked else d1, d2)
                 if df:
                     path = df[0]
                     import re
                     gen = re.sub(r"\[\d+\]", "[]", path)
                     R.violation({"kind": "reload-differs", "where": gen},
-                                f"after save+reload {path} is {df[2]!r}, it was {df[1]!r} in memory at the moment of the save", {**replay, "path": path, "memory": df[1], "reloaded": df[2]})
-                df2 = histories.diff_dumps(d1, d_after)
+                                f"after save+reload {path} is {df[2]!r}, it was {df[1]!r} in memory at the moment of the save" + (" (after the on-write hook of this scenario ran)" if hooked else ""), {**replay, "path": path, "memory": df[1], "reloaded": df[2]})
+                df2 = None if hooked else histories.diff_dumps(d1, d_after)
                 if df2 and not (df2[0].startswith(".units") and False):
                     R.violation({"kind": "save-changes-managers", "where": df2[0].split("[")[0]},
                                 f"saving changed the in-memory manager state at {df2[0]}: {df2[1]!r} -> {df2[2]!r}", {**replay, "path": df2[0]})
